@@ -34,6 +34,7 @@ func TestVerifReplay(t *testing.T) {
 		if path == "" {
 			continue
 		}
+		fmt.Printf("VREPLAY-BEGIN %s\n", path)
 		outcome, detail := vReplayOne(path)
 		detail = strings.ReplaceAll(detail, "\n", "\\n")
 		fmt.Printf("VREPLAY %s %s %s\n", path, outcome, detail)
